@@ -232,6 +232,49 @@ fn main() {
 				}
 			}
 		}
+		// checked constructors: every member list of length 0..L over n leaves (repetitions
+		// allowed: the duplicate pair at every pair of positions), plus members that are wrappers
+		// or references to collections that already contain some of the leaves
+		"trynew" => {
+			let (n, maxlen) = if quick { (3usize, 4usize) } else { (4, 5) };
+			let pre = vec![
+				Expr::B(Box::new(Expr::V(vec![Expr::M(0), Expr::M(1)]))),
+				Expr::T(Box::new(Expr::V(vec![Expr::M(1), Expr::M(2)]))),
+				Expr::O(9, Box::new(Expr::V(vec![Expr::M(n)]))),
+			];
+			let mut alpha: Vec<Expr> = (0..n).map(Expr::M).collect();
+			alpha.push(Expr::C(0));
+			alpha.push(Expr::C(1));
+			alpha.push(Expr::C(2));
+			alpha.push(Expr::P(7, Box::new(Expr::M(2))));
+			alpha.push(Expr::V(vec![Expr::M(0), Expr::M(n - 1)]));
+			let mut lists: Vec<Vec<usize>> = vec![vec![]];
+			let mut frontier: Vec<Vec<usize>> = vec![vec![]];
+			for len in 1..=maxlen {
+				let mut nxt = Vec::new();
+				for l in &frontier {
+					// beyond length 3 only leaf members are enumerated exhaustively
+					let width = if len <= 3 { alpha.len() } else { n };
+					for a in 0..width {
+						let mut l2 = l.clone();
+						l2.push(a);
+						nxt.push(l2);
+					}
+				}
+				lists.extend(nxt.iter().cloned());
+				frontier = nxt;
+			}
+			let perms = permutations(n + 1);
+			for (li, l) in lists.iter().enumerate() {
+				let members: Vec<Expr> = l.iter().map(|i| alpha[*i].clone()).collect();
+				let prog: Vec<Stmt> =
+					[b'B', b'F', b'T'].iter().map(|k| Stmt::TryNew(*k, Expr::V(members.clone()))).collect();
+				let perm = &perms[(li * 7 + seed as usize) % perms.len()];
+				let c = base(format!("{family}{bi}"), n + 1, perm, &pre, &vec![b'F'; n + 1], prog);
+				bi += 1;
+				sink_runs += explore(&c, Budget { refusals: 0, faults: 0, max_runs: 1 }, &mut |c, r| out.emit(c, r));
+			}
+		}
 		// non-acquiring operations (Debug, is_poisoned, clear_poison) in every hold state: locks held
 		// by another thread, by the caller through a live guard or a running closure, or free;
 		// with one-shot faults inside Debug's try/unlock
